@@ -138,4 +138,4 @@ QUERIES = [
           bounds=lambda tier: {"spaces": "A, A.Ch, B (B inherits A or not)", "name_pool": POOL, "symmetry": "first operation uses name x, second x or y (names are interchangeable)", "operations": OPS, "history_length": 2 if tier == "quick" else 3},
           outside=["histories longer than 3", "names outside the pool", "ItemSpaces"]),
 ]
-BUDGET = {"quick": 420, "thorough": 3000}
+BUDGET = {"quick": 420, "thorough": 1200}
